@@ -16,7 +16,7 @@ import (
 
 func TestC01(t *testing.T) {
 	c := evid.New("C01")
-	c.Rule = "typed generator (sources: accounts by literal / aliasing variable / metadata lookup, ordered, capped, portioned, nested to depth 3; specific / variable / unbounded overdraft; 1-4 statements sharing accounts, sends to and from world, save) x balance tables with 0, negative and >2^64 balances. Oracle: replay of the emitted postings in order over the drawn balances with floor -(largest overdraft the script grants that account) for every debit of a non-world account; and: the reference says the sources cannot cover a send => the run fails with insufficient funds and yields nothing. Non-trivial = accepted run in which a source ends within 1 unit of its floor, goes negative, or re-spends funds received earlier; or a rejected run with amount class cap+1/cap+2; distinct by script + environment."
+	c.Rule = "typed generator (sources: accounts by literal / aliasing variable / metadata lookup, ordered, capped, portioned, nested to depth 3; specific / variable / unbounded overdraft; 1-4 statements sharing accounts, sends to and from world, save; one program in 8 uses one route twice with the payer credited in between, one in 8 lets an account pay itself and draws on it again) x balance tables with 0, negative and >2^64 balances. Oracle: replay of the emitted postings in order over the drawn balances with floor -(largest overdraft the script grants that account) for every debit of a non-world account; and: the reference says the sources cannot cover a send => the run fails with insufficient funds and yields nothing. Non-trivial = accepted run in which a source ends within 1 unit of its floor, goes negative, or re-spends funds received earlier; or a rejected run with amount class cap+1/cap+2; distinct by script + environment."
 	c.Assumptions = []string{"overdraft grants are read from the harness's own AST of the program (literal, variable value, arithmetic), per account and asset, for the whole transaction"}
 	cfg := numgen.GenCfg{MaxDepth: 3, MaxStmts: 4}
 	cfg.AvoidKeptReserve = true
